@@ -16,7 +16,9 @@ type DynamicProxy struct {
 	// connection.
 	DialTimeout time.Duration
 
-	// Lookup returns a target host for the given request.
+	// Lookup returns a target host for the local address ('ip:port')
+	// of the connection. It is called once per connection and is
+	// expected to fall back to the route for ':port' itself.
 	// The proxy will panic if this value is nil.
 	Lookup func(host string) *route.Target
 
@@ -37,12 +39,11 @@ func (p *DynamicProxy) ServeTCP(in net.Conn) error {
 		p.Conn.Add(1)
 	}
 
+	// Lookup is asked once per connection: it answers for the address and
+	// falls back to the route for ':port' on the same routing table. A second
+	// call could be answered from a table which was installed in between.
 	target := in.LocalAddr().String()
 	t := p.Lookup(target)
-	if t == nil {
-		_, port, _ := net.SplitHostPort(target)
-		t = p.Lookup(":" + port)
-	}
 	if t == nil {
 		if p.Noroute != nil {
 			p.Noroute.Add(1)
